@@ -198,7 +198,15 @@ Definition apply_load_coherence (s : atomic_state) (caus : vv) (index : nat) : a
            let mo := if is_seen_by_current (st_seen x) caus then vv_join mo (st_mo x) else mo in
            if vv_lt (st_hb x) caus then vv_join mo (st_mo x) else mo)
       (index_list (at_stores s)) (st_mo (get_store s index)) in
-  at_set_stores s (list_upd (at_stores s) index (fun x => st_set_mo x mo)) (at_cnt s).
+  (* the store that is read may have moved later in the modification order; whatever was
+     ordered after it stays ordered after it (fix: the order only ever gains edges) *)
+  let before := st_mo (get_store s index) in
+  let stores1 := list_upd (at_stores s) index (fun x => st_set_mo x mo) in
+  let stores2 :=
+    if vv_eqb mo before then stores1
+    else mapi (fun i x => if negb (Nat.eqb index i) && vv_lt before (st_mo x)
+                          then st_set_mo x (vv_join (st_mo x) mo) else x) stores1 in
+  at_set_stores s stores2 (at_cnt s).
 
 (* ---- match_load_to_stores ---- *)
 (* inner loop for a fixed i: Some true = candidate, Some false = `continue 'outer`,
